@@ -1,5 +1,5 @@
 """C01 - compiled code computes what the source program says (sequential core)"""
-import suites
+import suites, gen_special
 from props.common import TRUSTED_BASE, ASSUMPTIONS as _A
 
 ID = 'C01'
@@ -28,6 +28,12 @@ def run(ctx):
         for k, v in st.items(): stats[k] = stats.get(k, 0) + v
     ctx.stats['generator_distribution'] = stats
     jobs += suites.core_suite(ctx, ctx.budget(240, 4000))
+    # left-to-right evaluation with side effects: every scalar type x storage class x consuming form
+    order = gen_special.order_programs(ctx.rng)
+    for w in ((2, 4) if ctx.quick else (2, 3, 4, 8)):
+        for un in (False, True):
+            jobs += [('ord%d_%d_%d' % (i, w, un), src, args, w, 200, un, 300000) for i, (src, args, tag) in enumerate(order)]
+    ctx.stats['evaluation_order_forms'] = len(order)
     suites.differential(ctx, jobs, None, label='sequential', must_compile=True)
     ctx.samples.append(dict(generated_program=jobs[-1][1][:1500], args=jobs[-1][2], w=jobs[-1][3]))
 
